@@ -154,6 +154,17 @@ class just(object):
         return False
 
 
+def extra_guards(cfg, nid, *allowed):
+    """Guard atoms of node nid that are none of `allowed` = (text, polarity),
+    compared canonically and with intermediate names expanded."""
+    j = just(cfg, *allowed)
+    out = []
+    for e, p, bid in cfg.guards(nid):
+        if not j(e, p, cfg.nodes[bid].test):
+            out.append((" ".join(unparse(e).split()), p))
+    return out
+
+
 def branch_justifies(cfg_node, is_justification, cfg=None):
     """A branch node justifies skipping a check when every disjunct of its
     (canonical) condition contains at least one justification atom."""
@@ -259,9 +270,11 @@ def str_consts(node):
             if isinstance(n, ast.Constant) and isinstance(n.value, str)]
 
 
-def facts(cfg, nid, inline=False):
-    """Canonical (text, polarity) guard facts of a node; with inline=True also
-    the forms with single-definition locals inlined."""
+def facts(cfg, nid, inline=True):
+    """Canonical (text, polarity) guard facts of a node, as written and (unless
+    inline=False) also with single-definition locals expanded - so a membership
+    test finds a fact whether or not the source names an intermediate result.
+    Pass inline=False where the *set* is compared exactly."""
     out = cfg.guard_texts(nid)
     if inline:
         out = out | cfg.guard_texts(nid, inline=True)
